@@ -631,9 +631,17 @@ type ContractFile struct {
 	Lemmas    []*Lemma
 	Consts    map[string]string
 	Immutable []string
+	GhostFields []GhostField
 }
 
-var blockKeywords = map[string]bool{"immutable": true, "functype": true, "func": true, "extern": true, "ghost": true, "axiom": true, "lemma": true, "group": true, "const": true}
+// GhostField: specification-only field of a struct type (kept in the heap model like a real field).
+type GhostField struct {
+	TypeName string
+	Name     string
+	Type     *STypeExpr
+}
+
+var blockKeywords = map[string]bool{"ghostfield": true, "immutable": true, "functype": true, "func": true, "extern": true, "ghost": true, "axiom": true, "lemma": true, "group": true, "const": true}
 var clauseKeywords = map[string]bool{
 	"requires": true, "ensures": true, "modifies": true, "reads": true, "writes": true, "loop": true, "at": true, "panics_when": true,
 	"prop": true, "pure": true, "uses": true, "abstract": true, "counts": true, "trusted": true, "may_panic": true,
@@ -709,6 +717,31 @@ func readContractFile(path, pkgPath string) (*ContractFile, error) {
 			return &Clause{Kind: kind, Label: label, Text: text, Expr: e, Line: rl.line}, nil
 		}
 		switch kw {
+		case "ghostfield":
+			// ghostfield Type.name type
+			f := splitWords(rest, 2)
+			if len(f) != 2 || !strings.Contains(f[0], ".") {
+				return nil, fail(rl.line, "ghostfield Type.name type")
+			}
+			i := strings.LastIndex(f[0], ".")
+			toks, err := lex(f[1])
+			if err != nil {
+				return nil, fail(rl.line, "%v", err)
+			}
+			tp := &sparser{toks: toks, src: f[1]}
+			var ty *STypeExpr
+			func() {
+				defer func() {
+					if r := recover(); r != nil {
+						err = fmt.Errorf("%v", r)
+					}
+				}()
+				ty = tp.parseType()
+			}()
+			if err != nil {
+				return nil, fail(rl.line, "%v", err)
+			}
+			cf.GhostFields = append(cf.GhostFields, GhostField{TypeName: f[0][:i], Name: f[0][i+1:], Type: ty})
 		case "immutable":
 			for _, m := range strings.Split(rest, ",") {
 				if m = strings.TrimSpace(m); m != "" {
